@@ -338,6 +338,152 @@ pub fn replay_smoothvec(args: &Args) {
             }
         }
     }
+    // WIDE: a builder over 70 labels; the printed function sits on scattered labels (two congruent modulo 64); smooth over the first n <= 10
+    // levels. Checked structurally (every node on one of the first n levels has both children
+    // exactly one level further down, or at the terminals when it is on level n - 1; nothing is tested twice), on the function (unchanged on
+    // the printed variables, independent of every other label), and on the count with non-normalised weights in the field Z_32749:
+    // (sum over the printed models of the product of their literal weights) x (product over every other smoothed level of low + high).
+    {
+        use rsdd::util::semirings::{FiniteField, Semiring};
+        let mut rng = Rng::new(args.num("seed", 1) ^ 0x5007);
+        let nlabels = 70usize;
+        let distinct: Vec<&Value> = {
+            let mut seen = std::collections::HashSet::new();
+            vecs.iter().filter(|v| seen.insert(tt_of(&v["f"]))).collect()
+        };
+        configs += 1;
+        rsdd::verif::set_table_capacity(0);
+        rsdd::verif::set_lru_capacity(None);
+        let base = rng.below(6);
+        let mut emb: Vec<usize> = vec![base, base + 64];
+        while emb.len() < nv {
+            let l = rng.below(nlabels);
+            if !emb.contains(&l) {
+                emb.push(l);
+            }
+        }
+        emb.truncate(nv);
+        // smoothing is exponential in the number of levels it fills in: only the first `front` = 10 levels are ever smoothed; they hold the
+        // function's labels and further labels (one congruent to a function label modulo 64), the other 60 labels follow
+        let front = 10usize;
+        let mut head: Vec<usize> = emb.clone();
+        let twin = (emb[0] + 64) % 128 % nlabels;
+        if !head.contains(&twin) {
+            head.push(twin);
+        }
+        while head.len() < front {
+            let l = rng.below(nlabels);
+            if !head.contains(&l) {
+                head.push(l);
+            }
+        }
+        for k in (1..head.len()).rev() {
+            head.swap(k, rng.below(k + 1));
+        }
+        let mut order: Vec<usize> = head.clone();
+        order.extend(rng.perm(nlabels).into_iter().filter(|l| !head.contains(l)));
+        let level_of: HashMap<usize, usize> = order.iter().enumerate().map(|(i, l)| (*l, i)).collect();
+        let b = RobddBuilder::<AllIteTable<BddPtr>>::new(VarOrder::new(&order.iter().map(|v| VarLabel::new_usize(*v)).collect::<Vec<_>>()));
+        // the function's variables in the builder's order
+        let mut core_order: Vec<usize> = (0..nv).collect();
+        core_order.sort_by_key(|v| level_of[&emb[*v]]);
+        let w: Vec<(u128, u128)> = (0..nlabels).map(|_| (1 + rng.below(9) as u128, 1 + rng.below(9) as u128)).collect();
+        let params = rsdd::repr::WmcParams::<FiniteField<32749>>::new(w.iter().enumerate().map(|(l, (lo, hi))| (VarLabel::new_usize(l), (FiniteField::new(*lo), FiniteField::new(*hi)))).collect());
+        let mut memo = HashMap::new();
+        for (k, v) in distinct.iter().enumerate().take(64) {
+            let tt = tt_of(&v["f"]);
+            let n = match k % 4 { 0 => front, 1 => front - 1, _ => rng.below(front + 1) };
+            t.steps += 1;
+            let r = guarded(|| {
+                let f = bdd_build_emb(&b, tt, 0, &core_order, nv, &emb, &mut memo);
+                let sm = b.smooth(f, n);
+                // structure
+                let mut seen: HashMap<usize, bool> = HashMap::new();
+                fn walk(p: BddPtr, lvl: usize, n: usize, level_of: &HashMap<usize, usize>, seen: &mut HashMap<usize, bool>) -> bool {
+                    match p {
+                        BddPtr::PtrTrue | BddPtr::PtrFalse => lvl >= n, // a terminal above level n: a skipped level
+                        BddPtr::Reg(nd) | BddPtr::Compl(nd) => {
+                            let my = level_of[&nd.var.value_usize()];
+                            if lvl < n && my != lvl {
+                                return false; // some level in lvl .. my is skipped (or the order is violated)
+                            }
+                            if lvl >= n && my < lvl {
+                                return false;
+                            }
+                            let key = nd as *const BddNode as usize;
+                            if let Some(ok) = seen.get(&key) {
+                                return *ok;
+                            }
+                            let next = my + 1;
+                            let ok = walk(nd.low, next, n, level_of, seen) && walk(nd.high, next, n, level_of, seen);
+                            seen.insert(key, ok);
+                            ok
+                        }
+                    }
+                }
+                let structure = walk(sm, 0, n, &level_of, &mut seen);
+                // function: on the printed variables, with every other label all-false / all-true
+                let mut fun_ok = true;
+                for fill in [false, true] {
+                    for a in 0..(1usize << nv) {
+                        let mut asg = vec![fill; nlabels];
+                        for x in 0..nv {
+                            asg[emb[x]] = (a >> x) & 1 == 1;
+                        }
+                        let mut cur = sm;
+                        let mut neg = false;
+                        let val = loop {
+                            match cur {
+                                BddPtr::PtrTrue => break !neg,
+                                BddPtr::PtrFalse => break neg,
+                                BddPtr::Reg(nd) | BddPtr::Compl(nd) => {
+                                    if matches!(cur, BddPtr::Compl(_)) {
+                                        neg = !neg;
+                                    }
+                                    cur = if asg[nd.var.value_usize()] { nd.high } else { nd.low };
+                                }
+                            }
+                        };
+                        if val != ((tt >> a) & 1 == 1) {
+                            fun_ok = false;
+                        }
+                    }
+                }
+                // count: variables of the function below level n keep the unsmoothed semantics (only tested where f depends on them)
+                let got = sm.unsmoothed_wmc(&params).value();
+                (structure, fun_ok, got)
+            });
+            // expected count when every variable of the function lies on the first n levels (otherwise the count is not compared)
+            let all_inside = (0..nv).all(|x| level_of[&emb[x]] < n);
+            let p = 32749u128;
+            let mut exp = 0u128;
+            for a in 0..(1usize << nv) {
+                if (tt >> a) & 1 == 1 {
+                    let mut prod = 1u128;
+                    for x in 0..nv {
+                        prod = prod * (if (a >> x) & 1 == 1 { w[emb[x]].1 } else { w[emb[x]].0 }) % p;
+                    }
+                    exp = (exp + prod) % p;
+                }
+            }
+            for lvl in 0..n {
+                let l = order[lvl];
+                if !emb.contains(&l) {
+                    exp = exp * ((w[l].0 + w[l].1) % p) % p;
+                }
+            }
+            let (ok, got) = match r {
+                Ok((st, fu, cnt)) => (st && fu && (!all_inside || cnt == exp), json!({"levels_each_once_in_order": st, "function_kept": fu, "count_mod_32749": cnt.to_string(), "expected": if all_inside { exp.to_string() } else { "n/a".to_string() }})),
+                Err(m) => (false, json!({"panic": m})),
+            };
+            if !ok {
+                t.mismatches += 1;
+                if t.bad.len() < 10 {
+                    t.bad.push(json!({"cfg": format!("smooth over the first {n} of 70 levels, variables on labels {emb:?}"), "vector": v, "got": got}));
+                }
+            }
+        }
+    }
     rsdd::verif::set_table_capacity(0);
     rsdd::verif::set_lru_capacity(None);
     println!("{}", json!({"vectors": t.vectors, "steps": t.steps, "configs": configs, "mismatches": t.mismatches, "bad": t.bad}));
@@ -554,6 +700,10 @@ fn stress_canonical(args: &Args, vecs: &[Value], nv: usize, which: &str) {
     rsdd::verif::set_table_capacity(0);
     rsdd::verif::set_lru_capacity(None);
     let mut nodes_seen = 0usize;
+    // --check canon (default, C02 / C04) | fn (C01: every result denotes what TLC printed) | twin (C16: the builder with the lossy cache
+    // and the one that caches every application return the same functions, vector by vector)
+    let check = args.str("check", "canon");
+    let mut twin_tts: Vec<Vec<TT>> = vec![];
     if which == "bdd" {
         for cache in ["all", "lru"] {
             configs += 1;
@@ -572,10 +722,22 @@ fn stress_canonical(args: &Args, vecs: &[Value], nv: usize, which: &str) {
                             let g = bdd_build(&b, tg, 0, &order, nv, &mut memo);
                             [f, g, b.and(f, g), b.or(f, g), b.negate(f), b.xor(f, g)]
                         });
-                        // canonicity only (C02): the key is the function a result ACTUALLY denotes (a wrong function is C01's business)
+                        // canonicity (C02): the key is the function a result ACTUALLY denotes (a wrong function is C01's business)
                         let want: Vec<TT> = match &r { Ok(ps) => ps.iter().map(|p| bdd_tt(*p, nv)).collect(), Err(_) => vec![] };
+                        let printed = [tf, tg, tt_of(&v["conj"]), tt_of(&v["disj"]), !tf & full(nv), (tf ^ tg) & full(nv)];
                         let ok = match &r {
-                            Ok(ps) => ps.iter().zip(want.iter()).all(|(p, w)| *canon.entry(*w).or_insert(*p) == *p),
+                            Ok(ps) => match check.as_str() {
+                                "fn" => want.iter().zip(printed.iter()).all(|(a, b)| a == b),
+                                "twin" => {
+                                    if cache == "all" {
+                                        twin_tts.push(want.clone());
+                                        true
+                                    } else {
+                                        twin_tts.get(t.steps - 1 - vecs.len()).map_or(true, |x| *x == want)
+                                    }
+                                }
+                                _ => ps.iter().zip(want.iter()).all(|(p, w)| *canon.entry(*w).or_insert(*p) == *p),
+                            },
                             Err(_) => false,
                         };
                         if !ok {
